@@ -631,6 +631,34 @@ pub fn cmd_replay(args: &[String]) -> i32 {
     }
 }
 
+/// `renet-sim shrink <file> [executions]`: runs the minimiser on a replay file with a budget of one's own choosing
+/// (`VERIF_MIN_SECS` lifts the wall-clock bound) and writes `<file>.min`. A triage tool; no check depends on it.
+pub fn cmd_shrink(args: &[String]) -> i32 {
+    let Some(path) = args.first() else { return 2 };
+    let budget: usize = args.get(1).and_then(|s| s.parse().ok()).unwrap_or(20_000);
+    let rp = match read_replay(path, &|n| checks::names_of(n)) {
+        Ok(r) => r,
+        Err(e) => {
+            eprintln!("harness error: {}", e);
+            return 2;
+        }
+    };
+    let Some(sig) = rp.expect.clone() else {
+        eprintln!("shrink: the file names no expected signature");
+        return 2;
+    };
+    let e = checks::engine(&rp.cfg.engine).unwrap();
+    let (ops, execs) = minimise(e.make, &rp.cfg, &rp.ops, &sig, budget);
+    let out = format!("{}.min", path);
+    let n = ops.len();
+    let rp2 = Replay { cfg: rp.cfg.clone(), seed: rp.seed, expect: Some(sig), note: rp.note.clone(), ops };
+    if write_replay(&out, &rp2, e.names).is_err() {
+        return 2;
+    }
+    println!("{} -> {} ops in {} executions: {}", rp.ops.len(), n, execs, out);
+    0
+}
+
 /// Prints "<idx> <log hash> <abs hash> <n violations>" per run; used by tools/detcheck to diff across processes.
 pub fn cmd_hashes(args: &[String]) -> i32 {
     if args.len() < 5 {
